@@ -5,13 +5,14 @@
    changes the state or succeeds, and failing no-op calls only for a sample of arguments. *)
 EXTENDS OciRegistryMC, Json
 
-CONSTANT GenDepth
+CONSTANTS GenDepth,
+          GenKinds    \* operation names the walks may use ({} = all)
 VARIABLE h
 
 GInit == Init /\ h = <<>>
 Sampled(o) == IF "r" \in DOMAIN o THEN o.r = "r1" ELSE TRUE
 RangeSample == {<<-1, -1>>, <<0, 1>>, <<1, 2>>, <<0, -1>>, <<1, 1>>, <<2, 1>>, <<0, 3>>, <<1, -1>>, <<2, 2>>}
-GenOps == {o \in Ops : IF o.op = "GetBlobRange" THEN <<o.o0, o.o1>> \in RangeSample
+GenOps == {o \in Ops : (GenKinds = {} \/ o.op \in GenKinds) /\ IF o.op = "GetBlobRange" THEN <<o.o0, o.o1>> \in RangeSample
                        ELSE IF o.op \in {"ListTags", "ListRepos"} THEN o.startpos \in {0, 2, 3} ELSE TRUE}
 \* The walk is printed by its own final step, so exactly once per walk (an invariant would be
 \* evaluated on every candidate successor).
